@@ -323,4 +323,68 @@ theorem relaxed_extends_strict :
   · intro b m h; rw [SigMsgDer.decodeSigMsg_monoEq b (by simp [h]), h]
   · intro cap l h; rw [SigMsgDer.msgRevokedSerials_monoEq cap (by simp [h]), h]
 
+/-- **Manifests, ROAs and ASPAs decoded in either mode** (`Manifest::decode`, `Roa::decode`, `Aspa::decode` with
+`strict` true or false): the content was accepted by the content decoder — which runs in DER mode whatever the
+envelope's mode — so the file list, the prefix lists and the provider set can be walked without failure
+(`FileListIter`, `iter_uris`, `RoaIpAddressIter`, `ProviderAsIter` and their `unwrap()`s). -/
+theorem typed_objects_accessors_either_mode (ber : Bool) (b : Bytes) (o : CmsDer.SigObjD) (base : Uri.Rsync) :
+    (CmsDer.decodeTypedM ber "mft" b = some o →
+      ∃ m es us, Manifest.decodeContent o.content = some m ∧ m.iter = some es ∧ es.length = m.len ∧
+        Manifest.iterUris m base = some us ∧ us.length = m.len) ∧
+    (CmsDer.decodeTypedM ber "roa" b = some o →
+      ∃ c l4 l6, Roa.decodeContent o.content = some c ∧ Roa.iter c.v4 = some l4 ∧ Roa.iter c.v6 = some l6) ∧
+    (CmsDer.decodeTypedM ber "aspa" b = some o →
+      ∃ a ps, Roa.decodeAspa Consts.aspaObjMaxLen o.content = some a ∧ Roa.iterProviders a.providers = some ps ∧
+        ps.length = a.count) := by
+  have e1 : ("mft" = "roa") = False := by decide
+  have e2 : ("mft" = "aspa") = False := by decide
+  have e3 : ("aspa" = "roa") = False := by decide
+  refine ⟨?_, ?_, ?_⟩
+  · intro h
+    unfold CmsDer.decodeTypedM at h
+    cases hd : CmsDer.decodeSigObjM ber b with
+    | none => simp [hd] at h
+    | some o' =>
+      simp only [hd, e1, e2, if_false, if_true] at h
+      split at h
+      · rename_i hc
+        injection h with h; subst h
+        cases hm : Manifest.decodeContent o'.content with
+        | none => rw [hm] at hc; simp at hc
+        | some m =>
+          obtain ⟨es, h1, h2, _⟩ := C14.len_eq_iter _ m hm
+          obtain ⟨es', us, g1, g2, g3, _, _⟩ := C14.iterUris_inside _ m base hm
+          exact ⟨m, es, us, rfl, h1, h2, g2, g3⟩
+      · cases h
+  · intro h
+    unfold CmsDer.decodeTypedM at h
+    cases hd : CmsDer.decodeSigObjM ber b with
+    | none => simp [hd] at h
+    | some o' =>
+      simp only [hd, if_true] at h
+      split at h
+      · rename_i hc
+        injection h with h; subst h
+        cases hm : Roa.decodeContent o'.content with
+        | none => rw [hm] at hc; simp at hc
+        | some c =>
+          obtain ⟨l4, l6, h4, h6, _⟩ := C05.roa_decoded_iterates _ c hm
+          exact ⟨c, l4, l6, rfl, h4, h6⟩
+      · cases h
+  · intro h
+    unfold CmsDer.decodeTypedM at h
+    cases hd : CmsDer.decodeSigObjM ber b with
+    | none => simp [hd] at h
+    | some o' =>
+      simp only [hd, e3, if_false, if_true] at h
+      split at h
+      · rename_i hc
+        injection h with h; subst h
+        cases hm : Roa.decodeAspa Consts.aspaObjMaxLen o'.content with
+        | none => rw [hm] at hc; simp at hc
+        | some a =>
+          obtain ⟨ps, hp, hl, _⟩ := C05.aspa_decoded_iterates _ _ a hm
+          exact ⟨a, ps, rfl, hp, hl⟩
+      · cases h
+
 end Rpki.Props.C04
